@@ -185,9 +185,39 @@ func c11Replacer(f *core.Func) *c11Repl {
 // c11ByteConsts collects the byte constants that f compares elements of its
 // []byte/string parameter with (== / != and tag-switch cases).
 func c11ByteConsts(f *core.Func) map[int64]bool {
-	info := f.Info()
 	out := map[int64]bool{}
+	c11ByteConstsInto(f, out, 0)
+	return out
+}
+
+// c11ByteConstsInto: the comparison may be written on a single-definition
+// temporary holding the element (`c := buf[i]`) or sit in a same-package helper
+// that is handed the byte sequence (followed one level deep).
+func c11ByteConstsInto(f *core.Func, out map[int64]bool, depth int) {
+	info := f.Info()
+	if depth == 0 {
+		for _, c := range core.AllCalls(info, f.Decl.Body, func(*types.Info, *ast.CallExpr) bool { return true }) {
+			fn := core.Callee(info, c)
+			if fn == nil || fn.Pkg() == nil || f.Obj == nil || fn.Pkg() != f.Obj.Pkg() {
+				continue
+			}
+			passes := false
+			for _, a := range c.Args {
+				if t := info.TypeOf(a); t != nil && core.IsByteSeq9(t) {
+					passes = true
+				}
+			}
+			sig, _ := fn.Type().(*types.Signature)
+			// only predicates / index helpers: a helper returning a bool or an int
+			if h := f.Prog.FuncOf(fn); passes && h != nil && h != f && h.Decl.Body != nil && sig != nil && sig.Results().Len() == 1 {
+				if b, ok := sig.Results().At(0).Type().Underlying().(*types.Basic); ok && b.Info()&types.IsBoolean != 0 {
+					c11ByteConstsInto(h, out, depth+1)
+				}
+			}
+		}
+	}
 	isElem := func(e ast.Expr) bool {
+		e = core.ResolveLocal(info, f.Decl.Body, e)
 		ix, ok := ast.Unparen(e).(*ast.IndexExpr)
 		if !ok {
 			return false
@@ -230,7 +260,6 @@ func c11ByteConsts(f *core.Func) map[int64]bool {
 		}
 		return true
 	})
-	return out
 }
 
 // c11ReplacerPairs evaluates strings.NewReplacer("a","b",…) initialising a package variable.
@@ -726,7 +755,6 @@ func c11Parsers(p *core.Prog, r *core.Report, mt, tt *c11Table) {
 	r.Check(len(tagCutters) == 1 && tagCutters[0] == "walkTags", rule, "models.scanTagValue", "unclassified-tag-parser", "-", "walkTags is the only function that cuts tag values out of a key (callers: "+strings.Join(tagCutters, ",")+")")
 	if f := r.Need(p, pkgModels9, "walkTags"); f != nil && unescT != nil {
 		info := f.Info()
-		g := f.Graph()
 		cons := "models.walkTags"
 		fn := f.X1Param(1)
 		// hasEscape := bytes.IndexByte(buf, esc) != -1
@@ -756,11 +784,26 @@ func c11Parsers(p *core.Prog, r *core.Report, mt, tt *c11Table) {
 				return fn != nil && core.ObjOf(info, c.Fun) == types.Object(fn)
 			}
 			nRaw, nUn := 0, 0
-			for _, n := range g.Select(g.Calling(isFn)) {
+			// the hand-over may sit in a local closure: every graph of the function is
+			// searched, the guard is looked for in the graph that holds the call
+			type site struct {
+				g *core.Graph
+				n *core.Node
+			}
+			var sites []site
+			for _, gg := range f.Graphs() {
+				for _, n := range gg.Select(gg.Calling(isFn)) {
+					sites = append(sites, site{gg, n})
+				}
+			}
+			counted := map[*ast.CallExpr]bool{}
+			for _, st := range sites {
+				g, n := st.g, st.n
 				for _, c := range core.CallsIn(info, n.N, isFn, core.WalkOpts{}) {
-					if len(c.Args) != 2 {
+					if len(c.Args) != 2 || counted[c] {
 						continue
 					}
+					counted[c] = true
 					u0, u1 := c11CallOf(info, c.Args[0], unescT), c11CallOf(info, c.Args[1], unescT)
 					if u0 != nil && u1 != nil {
 						nUn++
